@@ -1,10 +1,16 @@
 """Workload drivers: they only *call the library*; the attached monitors watch."""
+import re
 import sys
 
 from . import core, attach
 
 
-def make_scfg(g, payload="basic"):
+def make_scfg(g, payload="basic", how="ctor"):
+    """how: 'ctor' = SCFG(graph) ; 'add_block' = an empty SCFG() filled block by
+    block through the public add_block (how FlowInfo.build_basicblocks
+    assembles its graph); 'assign' = an empty SCFG() whose public graph dict is
+    written directly (never used for names of the generator's own shape: only
+    the constructor and add_block can reserve those)."""
     from numba_scfg.core.datastructures.scfg import SCFG
     from numba_scfg.core.datastructures.basic_block import (
         BasicBlock,
@@ -31,7 +37,31 @@ def make_scfg(g, payload="basic"):
             graph[k] = PythonASTBlock(name=k, _jump_targets=tuple(v), tree=tree)
         else:
             raise ValueError(payload)
+    if how == "add_block":
+        scfg = SCFG()
+        for b in graph.values():
+            scfg.add_block(b)
+        return scfg
+    if how == "assign":
+        scfg = SCFG()
+        for b in graph.values():
+            scfg.graph[b.name] = b
+        return scfg
     return SCFG(graph)
+
+
+_GENERATED = re.compile(r"(_block_|_region_|__scfg_)")
+
+
+def how_for(g):
+    """Construction path of a graph case, a pure function of the graph (the
+    same in every process): one graph in four is assembled with add_block, one in four by writing the graph dict."""
+    r = int(core.graph_hash(g)[:8], 16) % 4
+    if r == 0:
+        return "add_block"
+    if r == 1 and not any(_GENERATED.search(k) for k in g):
+        return "assign"
+    return "ctor"
 
 
 def run_stages(scfg, stages="JLB", ctx=None):
